@@ -473,7 +473,10 @@ func (s *sharedEntryAttributes) shouldDelete() bool {
 	//     shouldDelete() [only if an entry is explicitly to be deleted, issue a delete]
 	//   and
 	//     s.leafVariants.canDelete()
-	result := leafVariantshouldDelete || (canDelete && shouldDelete && s.leafVariants.canDelete())
+	// a presence container whose own (empty) value is given up must stay as long as a child remains:
+	// the value of the container then is implied by the child
+	childsCanDelete := canDelete || len(s.filterActiveChoiceCaseChilds()) == 0
+	result := (leafVariantshouldDelete && childsCanDelete) || (canDelete && shouldDelete && s.leafVariants.canDelete())
 
 	s.cacheShouldDelete = &result
 	return result
